@@ -10,4 +10,4 @@ From Verif.Tie.Vers Require Common Valid Constraints Code Printers Pypi Texts.
 From Verif.Tie.Vers Require CoreAlternating CoreGroup.
 From Verif.Tie.Vers Require CoreGroupTie CoreToRanges CoreDispatch.
 From Verif.Tie.Vers Require CoreNormalize CoreGroupLen CoreContains.
-From Verif.Tie.Vers Require CoreContainsClosed CoreContainsOn.
+From Verif.Tie.Vers Require CoreContainsClosed CoreContainsOn CoreContainsOn2.
